@@ -10,6 +10,8 @@
 (*           the control and non-ASCII stand-ins: a loosened class, a stray *)
 (*           metacharacter or an unescaped dot admits some character that   *)
 (*           the narrow alphabets need not contain;                         *)
+(*   wideinsert  one character of the wide alphabet inserted at every      *)
+(*           position of every example;                                     *)
 (*   splice  for the keyword matchers, every prefix of a documented word    *)
 (*           glued to every suffix of a documented word (abs+top,           *)
 (*           text+middle, ...): a factored alternation accepts cross        *)
@@ -79,6 +81,7 @@ Init == \/ m \in Matchers /\ s = <<>> /\ mode = "build" /\ nsub = 0
         \/ m \in Matchers /\ s = <<>> /\ mode = "wide" /\ nsub = 0
         \/ m \in Matchers /\ s \in Examples(m) /\ mode = "widemutate" /\ nsub = 0
         \/ m \in Matchers /\ s \in Splices(m) /\ mode = "splice" /\ nsub = 0
+        \/ m \in Matchers /\ s \in Examples(m) /\ mode = "wideinsert" /\ nsub = 0
 
 Next == \/ /\ mode = "build" /\ Len(s) < MaxLen
            /\ \E c \in Alphabet(m) : s' = Append(s, c)
@@ -89,13 +92,16 @@ Next == \/ /\ mode = "build" /\ Len(s) < MaxLen
         \/ /\ mode = "wide" /\ Len(s) < 2
            /\ \E c \in Wide : s' = Append(s, c)
            /\ UNCHANGED <<m, mode, nsub>>
+        \/ /\ mode = "wideinsert" /\ nsub < 1      \* one character inserted at any position of an example
+           /\ \E i \in 0..Len(s), c \in Wide : s' = SubSeq(s, 1, i) \o <<c>> \o SubSeq(s, i + 1, Len(s))
+           /\ nsub' = nsub + 1 /\ UNCHANGED <<m, mode>>
         \/ /\ mode = "widemutate" /\ nsub < 1
            /\ \E i \in DOMAIN s, c \in Wide : s' = [s EXCEPT ![i] = c]
            /\ nsub' = nsub + 1 /\ UNCHANGED <<m, mode>>
 
 Spec == Init /\ [][Next]_vars
 
-IsExample == mode \in {"mutate", "widemutate"} /\ nsub = 0
+IsExample == mode \in {"mutate", "widemutate", "wideinsert"} /\ nsub = 0
 EmitCase == Emit => PrintT(<<"CASE", ToJson([m |-> m, s |-> s, doc |-> DocForm(m, s), ex |-> IsExample])>>)
 
 \* the documented forms are themselves closed, anchored recognisers; the examples are in documented form
